@@ -266,6 +266,8 @@ def run(run: Run) -> None:
                 continue
             us.append(((n, generator, solver, seed * 4 + 3, 12, None, "superadditive_cached", ("l1_norm", "exploitability")[si]),
                        [1, 2, 3] if quick else [1, 2, 3, 4, 8, 16], (), f"{solver}/{generator}/degenerate-prone"))
+    us.append(((4, "noisy_factory", "greedy", seed + 3, 5, 3, "superadditive_cached", "l1_norm"), [1, 2, 3], (), "greedy/n4"))
+    us.append(((5, "xos", "largest", seed + 5, 3, 2, "superadditive_cached", "linf_norm"), [1, 2], (), "largest/n5"))
     if not quick:
         for solver in solvers:
             us.append(((4, "noisy_factory", solver, seed + 3, 12, 3, "superadditive_cached", "l1_norm"), [1, 2, 3, 4, 8, 16], (4,), f"{solver}/n4"))
